@@ -428,7 +428,7 @@ def rule_sibling(ctx):
 
 # 'accepted by the library's own parser and read back unchanged' needs registry closure and constructor symmetry
 # a definition is sent (and read back) whatever it contains: no message may be falsy where its truthiness is tested
-IMPORTS = [('C03', 'C03.REG'), ('C03', 'C03.SYM'), ('C02', 'C02.TRUTHY')]
+IMPORTS = [('C03', 'C03.REG'), ('C03', 'C03.SYM'), ('C02', 'C02.TRUTHY'), ('C10', 'C10.SIGNR')]  # C10.SIGNR: a definition shows the element's value, sign included
 
 _META_SRC = '''
 from indi.device import Driver, properties
